@@ -29,11 +29,7 @@ Record lprov := mkLp {
 }.
 #[export] Instance eta_lp : Settable _ := settable! mkLp <lp_units; lp_unlocks; lp_last>.
 
-(* LP store key: asset id * LPK + address id  (real key: "<symbol>_<bech32>") *)
-Definition LPK : Z := 65536.
-Definition lpkey (asset addr : Z) : Z := asset * LPK + addr.
-Definition lp_asset_of (k : Z) : Z := k / LPK.
-Definition lp_addr_of (k : Z) : Z := k mod LPK.
+(* LP store: asset id -> address id -> record (real key "<symbol>_<bech32>": ordered by symbol, then address) *)
 
 Record reward_period := mkRP {
   rp_start : Z; rp_end : Z; rp_alloc : Z;
@@ -44,3 +40,19 @@ Record reward_period := mkRP {
 }.
 
 Record lppd_period := mkPD { pd_rate : Z (* Dec *); pd_start : Z; pd_end : Z; pd_mod : Z }.
+
+(* x/clp parameters and the other modules' state that the clp handlers read *)
+Record clp_params := mkCP {
+  cp_pmtp : Z;                     (* PmtpCurrentRunningRate (Dec) *)
+  cp_fee_default : Z;              (* DefaultSwapFeeRate (Dec) *)
+  cp_fee_tokens : list (Z * Z);    (* per-token swap fee rates (denom id, Dec) *)
+  cp_lock : Z;                     (* LiquidityRemovalLockPeriod *)
+  cp_cancel : Z;                   (* LiquidityRemovalCancelPeriod *)
+  cp_registry : list (Z * Z);      (* token registry: (denom id, permission bits) in registry order *)
+  cp_whitelist : list Z            (* clp address whitelist (decommission) *)
+}.
+Definition PERM_CLP : Z := 1.
+Definition PERM_IBCEXPORT : Z := 2.
+Definition PERM_IBCIMPORT : Z := 4.
+Definition PERM_DISABLE_BUY : Z := 8.
+Definition PERM_DISABLE_SELL : Z := 16.
